@@ -448,7 +448,8 @@ class Interp:
         if name.startswith("operator.") and short in OPERATOR_FUNCS and len(args) == OPERATOR_FUNCS[short][1]:
             kind_, _ = OPERATOR_FUNCS[short]
             if kind_[0] == "bin":
-                return self.binop(kind_[1], args[0], args[1])
+                node_ = {v_: k_ for k_, v_ in self.BIN.items()}[kind_[1]]()
+                return self.binop(node_, args[0], args[1])
             if kind_[0] == "cmp":
                 return self.compare(kind_[1](), args[0], args[1])
             if kind_[0] == "neg":
